@@ -1104,6 +1104,18 @@ theorem no_state_between_invocations :
     source on every run. -/
 theorem no_await_while_write_end_open : PedVerif.Gen.SubprocModule.awaitsWhileWriteEndOpen = [] := by decide
 
+/-- **the callee's exception passes no handler of the parent**: the statements that hand the child's answer to the caller
+    (`raise result.exception`, `return result`) stand outside every try statement of `calculate_in_subprocess`.  So an exception the
+    callee raised is re-raised as it is whatever its class — also an EOFError, an OSError, a ChildProcessError or a class derived from
+    one, which the parent's own handlers (`except EOFError` around `recv`) would otherwise take for a failure of the protocol: this is
+    what lets `Callee.raiseExc e` stand for an exception of ANY class in `faithful_result`.  Generated from the source on every run. -/
+theorem result_dispatch_outside_try : PedVerif.Gen.SubprocModule.dispatchInsideTry = [] := by decide
+
+/-- … and in the compiled program: the instructions `raiseIfError` and `ret` have no handler (an exception raised there leaves the
+    coroutine), and the only instructions that can be entered with an exception in flight are those of handlers / `finally` copies -/
+theorem dispatch_has_no_handler :
+    prog.all (fun i => !(i.op == .raiseIfError || i.op == .ret) || (i.onEof.isNone && i.onErr.isNone)) = true := by decide
+
 /-- **an invocation never waits for another invocation**: a step of the system either leaves invocation `i` exactly as it was or is a
     step of `i` itself, which strictly decreases `i`'s own rank — and while `i` is pending it always has an enabled step of its own
     (`terminates_and_releases_rounds`, clause 2).  So `i` ends after at most `rank progRank St.init` steps of its own, whatever the other
